@@ -1,4 +1,4 @@
-from harness.common import Prop, canon
+from harness.common import Prop, canon, scale
 from harness import gen_models as M
 
 
@@ -13,7 +13,7 @@ class C05(Prop):
                   '>=2 declarations; distinct = distinct source tree')
 
     def streams(self, rng, tier):
-        n = 400 if tier == 'quick' else 20000
+        n = 400 if tier == 'quick' else scale(60000)
         corpus = [[], [{'k': 'namespace', 'name': ['A', 'B'], 'elems': [{'k': 'namespace', 'name': ['A'], 'elems': [
             {'k': 'interface', 'name': ['I'], 'types': [{'k': 'enum', 'name': ['E'], 'fields': ['X']}], 'events': []}]}]},
             {'k': 'namespace', 'name': ['A', 'B'], 'elems': [{'k': 'enum', 'name': ['E'], 'fields': []}]},
